@@ -1,6 +1,7 @@
 package main
 
 import (
+	"sort"
 	"flag"
 	"fmt"
 	"os"
@@ -63,6 +64,37 @@ func main() {
 	known, err := chk.LoadKnown(filepath.Join(*verif, "known_findings.json"))
 	if err != nil {
 		fail("known_findings.json: " + err.Error())
+	}
+	if *prop == "ALL" {
+		// measurement mode: every rule once; prints the rules that report something and the properties they serve
+		res := chk.RunProperty(p, "ALL", *tier, chk.AllRules(), known)
+		rules := map[string]bool{}
+		for _, o := range res.Violations {
+			rules[o.Rule] = true
+		}
+		props := map[string]bool{}
+		var rs []string
+		for _, r := range chk.AllRules() {
+			if rules[r.ID] {
+				rs = append(rs, r.ID)
+				for _, pr := range r.Props {
+					props[pr] = true
+				}
+			}
+		}
+		var ps []string
+		for pr := range props {
+			ps = append(ps, pr)
+		}
+		sort.Strings(ps)
+		fmt.Printf("ALL rules=%v props=%v\n", rs, ps)
+		for _, o := range res.Violations {
+			fmt.Printf("  %s %s %s @%s: %s\n", o.Status, o.Rule, o.Construct, o.Pos, firstLine(o.Why))
+		}
+		if len(res.Violations) > 0 {
+			os.Exit(1)
+		}
+		return
 	}
 	info, ok := chk.Props[*prop]
 	if !ok {
